@@ -110,6 +110,28 @@ func (b *c12Builder) record(total int, multiline bool) []byte {
 	return []byte(line)
 }
 
+// recordMsg builds a line whose message is exactly n ASCII bytes; some header fields may be empty (two spaces in a row)
+func (b *c12Builder) recordMsg(n int, emptyFields bool) []byte {
+	r := b.r
+	f := func(v string) string {
+		if emptyFields && r.Chance(1, 3) {
+			return ""
+		}
+		return v
+	}
+	head := fmt.Sprintf("<%d>1 %s %s %s %s %s %s ", r.PickInt([]int{13, 14, 163, 191, 0}), f("2021-01-01T00:00:00Z"), f(r.PickStr(c12Hosts)),
+		f(r.PickStr(c12Apps)), f("7"), f(r.PickStr(c12Sources)), f("-"))
+	msg := make([]byte, n)
+	for i := range msg {
+		msg[i] = byte('a' + (i*7+n)%26)
+	}
+	line := head + string(msg)
+	for len(line) < 32 {
+		line += "_"
+	}
+	return []byte(line)
+}
+
 func (b *c12Builder) malformed() []byte {
 	r := b.r
 	switch r.Intn(7) {
@@ -132,7 +154,9 @@ func (b *c12Builder) malformed() []byte {
 
 func (b *c12Builder) field(pool []int) int { return pool[b.r.Intn(len(pool))] }
 
-var c12DstFields = []int{9, 10, 11, 9, 10, 11, 3, 4, 6, 8, 5, 7}
+// pid (5) is the metric key of the generated configurations and is never given a value by a transform: a metric key with
+// invalid UTF-8 (a slice cutting a rune) panics in the metrics library (DESIGN.md section 6 #17, property C07)
+var c12DstFields = []int{9, 10, 11, 9, 10, 11, 3, 4, 6, 8, 2, 7}
 var c12AnyFields = []int{0, 1, 2, 3, 4, 5, 6, 7, 8, 9, 10, 11}
 var c12SrcFields = []int{3, 4, 6, 8, 8, 9, 10, 1, 0, 2}
 
@@ -351,7 +375,12 @@ func (b *c12Builder) stream(n int) {
 			b.addRecord(b.malformed())
 		default:
 			var in []byte
-			switch r.Intn(6) {
+			switch r.Intn(8) {
+			case 6:
+				// message length exactly around the message limit (ASCII, so that a cut never splits a rune)
+				in = b.recordMsg(b.pc.MaxMsg+r.Range(-2, 2), false)
+			case 7:
+				in = b.recordMsg(r.Range(0, 40), true)
 			case 0, 1:
 				in = b.record(-1, r.Chance(1, 4))
 			case 2, 3:
@@ -419,7 +448,14 @@ func c12GenPipe(g *Gen) {
 			dst = 0 // facility: string constants of the program
 			src = c12Tx{Kind: 0, S: c12Stx{Kind: 7, Keys: []int{5}}}
 		}
-		tr := c12Stx{Kind: 5, Key: dst, MaxLen: r.PickInt([]int{1, 2, 3, 4, 5}), Suffix: b.lit(r.PickStr([]string{"..", "~", "#"}))}
+		suffix := r.PickStr([]string{"..", "~", "#"})
+		tr := c12Stx{Kind: 5, Key: dst, MaxLen: r.PickInt([]int{1, 2, 3, 4, 5}), Suffix: b.lit(suffix)}
+		if src.S.Kind == 1 && r.Bool() {
+			// the value is cut only when it is longer than maxLen + len(suffix): hit that boundary exactly
+			if ml := len(pc.Lits[src.S.Site]) - len(suffix) + r.Range(-2, 2); ml >= 1 {
+				tr.MaxLen = ml
+			}
+		}
 		pc.Transforms = []c12Tx{src}
 		if r.Bool() {
 			pc.Transforms = append(pc.Transforms, c12Tx{Kind: 8, Conds: []c12Cond{{0, 4, b.lit(r.PickStr(c12Apps))}}, Body: []c12Stx{tr}})
